@@ -63,7 +63,34 @@ def marple(inp):
     return True, "%s_marple: same coefficients and minimum per sample" % method
 
 
+def recovery(inp):
+    """noiseless sum of p complex exponentials: the fitted polynomial has the p poles as its roots, the error is 0"""
+    import spectrum
+    method, fast = inp.get("method", "covariance"), bool(inp.get("fast"))
+    name = ("arcovar" if method == "covariance" else "modcovar") + ("_marple" if fast else "")
+    f = getattr(spectrum, name)
+    rng = np.random.RandomState(4)
+    for (p, N) in ((int(inp.get("p", 2)), max(int(inp.get("N", 8)), 2 * int(inp.get("p", 2)) + 1)), (1, 6), (2, 9), (3, 14), (4, 20)):
+        w = np.sort(rng.uniform(-2.8, 2.8, p))
+        if p > 1 and np.min(np.diff(w)) < 0.3:
+            w = np.linspace(-2.0, 2.2, p)
+        c = rng.randn(p) + 1j * rng.randn(p) + 0.5
+        n = np.arange(N)
+        x = sum(c[j] * np.exp(1j * w[j] * n) for j in range(p))
+        out = f(x.copy(), p)
+        a = np.asarray(out[0])[:p]
+        e = out[1]
+        poly = np.concatenate(([1.0], a))
+        vals = np.array([np.polyval(poly, np.exp(1j * wj)) for wj in w])
+        scale = 1.0 + float(np.sum(np.abs(a)))
+        if np.max(np.abs(vals)) > 1e-6 * scale:
+            return False, "%s(p=%d, N=%d): polynomial does not vanish at the poles, max|A(z_j)| = %.3g" % (name, p, N, float(np.max(np.abs(vals))))
+        if abs(e) > 1e-8 * float(np.sum(np.abs(x) ** 2)):
+            return False, "%s(p=%d, N=%d): returned error %r for noiseless data" % (name, p, N, e)
+    return True, "%s recovers the frequencies of noiseless exponentials exactly" % name
+
+
 NATIVE = dict(_N)
-NATIVE.update({"lsq": lsq, "marple": marple})
+NATIVE.update({"lsq": lsq, "marple": marple, "recovery": recovery})
 SEARCH = dict(_S)
-SEARCH.update({k: (lambda rng, h: dict(h)) for k in ("lsq", "marple")})
+SEARCH.update({k: (lambda rng, h: dict(h)) for k in ("lsq", "marple", "recovery")})
